@@ -17,7 +17,8 @@ P1_RULE = ("histories generated from one SplitMix64 state: commits of 1..6 ops o
            "in at least two different pipeline stages at some observation point")
 
 HOOK_COMMITS = ["39fa7aa verif hook: expose both index page searches (cfg pdb_verif)",
-                "aa461bc verif hook: route a stepping error through store_err (cfg pdb_verif)"]
+                "aa461bc verif hook: route a stepping error through store_err (cfg pdb_verif)",
+                "bafdd9c verif hook: expose last enacted record id and table configuration (cfg pdb_verif)"]
 NOT_APPLICABLE = {}
 
 PROPS = {
@@ -132,5 +133,27 @@ PROPS = {
                  "fault was actually hit"),
         "assumptions": [A_HASH, A_COMPRESS, P2_GAP],
         "trusted": ["hook Db::verif_store_err (cfg pdb_verif)", "the crate's own fault injector (try_io, feature instrumentation)"],
+    },
+    "C13": {
+        "level_text": ("Lean theorems C13_parse_encode / C13_total / C13_only_valid_consecutive / C13_file_order / C13_nothing_after_first_invalid / "
+                       "C13_whole_or_nothing / C13_prefix_not_older_partial over a byte-level model of the write-ahead log and of replay at open, for ALL "
+                       "byte strings and file sets; full-strength prefix statement kept as C13_prefix_not_older with a proved counterexample (F3b). The model "
+                       "is tied to the code by running Db::open on damaged copies of real log directories and comparing last_enacted and the table "
+                       "configuration after replay (hooks) with the compiled model, plus an independent prefix oracle."),
+        "level_note": ("Trusted: Lean kernel; CRC-32 as a function of the bytes (A-crc); hooks Db::verif_last_enacted / verif_table_cfg; table contents are "
+                       "tied by the oracle only (the model decides which records are accepted, not what they write). Known findings F3b, F3c, F3d are "
+                       "reported as KNOWN-FINDING."),
+        "lean": ["Pdb.Props.C13", "Pdb.Proofs.GenBits"],
+        "harness": [{"cmd": "c13", "quick": 250, "thorough": 500, "max_search": 3000, "timeout": 3000}],
+        "rule": ("fixed cases first (41 crafted log files incl. every panic trigger of the audit and accepted/rejected controls; 9 scripted scenarios of the "
+                 "findings), then generated cases from one SplitMix64 state: 1..3 columns (plain hash, rc hash, btree, passive multitree), 2..10 "
+                 "transactions, commit+process per transaction with random flush / enact / clean so that reclaimed, applied-unreclaimed, flushed and "
+                 "appending log files coexist; per image an undamaged control and ~13 damages (truncation, single / double bit flip, burst, garbage / stale "
+                 "record / valid empty record appended, file duplicated (+damaged), renamed, exchanged, deleted, zero-length, sub-header, extra short file, "
+                 "earlier-generation log); 1 case in 8 (quick) is a tiny history swept exhaustively (every truncation offset <= 300 B, every bit <= 200 B); "
+                 "thorough: 4x samples, every offset <= 64 KiB, every bit <= 2 KiB in sweep cases; distinct = SHA-1 of the ops; non-trivial = >= 2 "
+                 "transactions and a log file with records"),
+        "assumptions": ["A-crc: CRC-32 is a function of the record bytes; accepted records are genuine (no forged checksum-valid records except the empty controls)"],
+        "trusted": ["hooks db.rs verif_last_enacted / verif_table_cfg, column.rs verif_table_cfg (cfg pdb_verif)"],
     },
 }
